@@ -1340,6 +1340,13 @@ def a_fn_call(ev, st, info, args):
     actual = list(tup[1]) if tup[0] == 'tuple' else [tup]
     if f[0] in ('fn', 'closure'):
         return ev.apply_closure(f, actual, st, info['fr'], info['site'])
+    if getattr(ev, 'symbolic_fns', False) and f[0] == 'param':
+        # a caller-supplied function value (the `f` of an overridden `fold`): its k-th application on this path is an uninterpreted term over the
+        # function value and the arguments.  Only enabled by rules that compare summaries containing at most one application (C11.O).
+        cnt = ('X', 'apply_count')
+        k = st.store.get(cnt, T.I(0))
+        st.store[cnt] = T.add(k, T.I(1))
+        return [(st, ('call', 'apply#%d' % (k[1] if k[0] == 'int' else -1), tuple([f] + actual)))]
     return [(st, ('opaque', 'call of an unknown function value'))]
 
 
